@@ -96,6 +96,13 @@ Theorem C08_typeswitch_pointer_identity_misses :
     snd (ts_cases ident_struct (fun l => l) cs) <> [] /\ snd (ts_cases ident_ptr (fun l => l) cs) = [].
 Proof. exact pointer_identity_misses_duplicate. Qed.
 
+(* the same detection for expression switches over an interface value works on (value, type) pairs; keeping
+   only the FIRST type seen for a value misses the duplicate `case int(100): case uint(100): case uint(100):` *)
+Theorem C08_switch_first_type_only_misses :
+  exists cs : list ((nat * nat) * nat),
+    snd (ts_cases ident_vt (fun l => l) cs) <> [] /\ snd (fold_left sw_item_first_only (map fst cs) ([], 0)) = 0.
+Proof. exact switch_first_only_misses. Qed.
+
 (* a logging loop is order independent when at most one iteration logs *)
 Theorem C08_log_loop_perm_at_most_one :
   forall (X E : Type) (body : X -> list E) (l l' : list X),
@@ -191,6 +198,7 @@ Print Assumptions C08_errs_per_match_perm.
 Print Assumptions C08_typeswitch_seen_perm.
 Print Assumptions C08_typeswitch_duplicate_reported.
 Print Assumptions C08_typeswitch_pointer_identity_misses.
+Print Assumptions C08_switch_first_type_only_misses.
 Print Assumptions C08_log_loop_perm_at_most_one.
 Print Assumptions C08_initgoppkg_sorted_log_perm.
 Print Assumptions C08_gmxcheckprojs_sorted_first_wins_perm.
